@@ -1029,6 +1029,15 @@ func checkRootTypestate(c *Check, regs []*ssa.Function) {
 								if name == "segment" && vParam(nt, 1)(st.Val) {
 									hasS = true
 								}
+								// the embedded base copied in from a local value that was given both (base := baseTree{…})
+								if ld, isLd := st.Val.(*ssa.UnOp); isLd && ld.Op == token.MUL {
+									if src, isAl := ld.X.(*ssa.Alloc); isAl && src != al && src.Parent() == nt {
+										saveP, saveS := hasP, hasS
+										hasP, hasS = false, false
+										walk(src)
+										hasP, hasS = hasP || saveP, hasS || saveS
+									}
+								}
 							}
 						}
 						walk(fa)
